@@ -23,13 +23,14 @@ def install_all(force=False):
     import curies.triples  # noqa: F401
     import curies.w3c  # noqa: F401
 
-    from . import mon_core, mon_derive, mon_io, mon_misc, mon_state
+    from . import mon_bulk, mon_core, mon_derive, mon_io, mon_misc, mon_state
 
     mon_core.install()
     _cm, _am, frame = mon_state.install()
     mon_derive.install(frame)
     mon_io.install()
     mon_misc.install()
+    mon_bulk.install()
     _installed = True
     probe.S.enabled = True
     return True
